@@ -26,14 +26,25 @@ VOCAB = slicer.Vocabulary(
     methods=[(r"listIdsAndItems", "list_rebuilt"), (r"set\w*Id|setUnitId", lambda call: "id_removed" if re.search(r',\s*""\s*\)$|\(\s*""\s*\)$', call.strip()) else "id_set"), (r"remove\w*Id", "id_removed"),
              (r"removeAllIssues", "issues_cleared"), (r"addIssue\w*", "issue_added")],
     field_methods=[("mIdList", r"insert|emplace", "list_insert"), ("mIdList", r"clear", "list_clear"), ("mIdList", r"erase", "list_erase"),
-                   ("mIdList", r"count|equal_range|begin|end|size|find|upper_bound|lower_bound", "list_read")],
+                   ("mIdList", r"count|equal_range|begin|end|find|upper_bound|lower_bound", "list_read"), ("mIdList", r"size", "list_size")],
     field_assign={"mHash": hash_assign, "mIdList": lambda rhs: "list_rebuilt" if "listIdsAndItems" in rhs else "list_assigned"},
-    opaque=["S_Annotator_AnnotatorImpl_update", "S_Annotator_AnnotatorImpl_makeUniqueId"])
+    opaque=["S_Annotator_AnnotatorImpl_update", "S_Annotator_AnnotatorImpl_makeUniqueId"],
+    read_only=["list_read", "list_size", "issue_added"])
 
 
 def main(argv):
     c = Check("C13", "other")
     c.parse_args(argv)
+    # printer side: completeness of the id collection (unbounded: loop contracts, ghost-element set)
+    c.units = [UnitSpec("listids", ["utilities.cpp"], [("utilities.cpp", "libcellml::listComponentIds"), ("utilities.cpp", "libcellml::listIds")], string_model="sid",
+                        models=("pointwise.h",), spec_header="specs/C13/listids.h", harness_file="specs/C13/listids_harness.c", rec_stubs=["listComponentIds"])]
+    lstubs = sorted(set(m.group(1) for m in re.finditer(r"^#define __FC_(\w+)", open(os.path.join(VERIF, "specs/C13/listids.h")).read(), re.M)))
+    for nm, carries in (("listComponentIds", "utilities.cpp listComponentIds: EVERY identifier carried by the component, its import source, its variables (and their mapping / "
+                                             "connection ids), its resets and (by its own contract) its child components is collected; nothing is removed"),
+                        ("listIds", "utilities.cpp listIds: EVERY identifier of the model, its units (their import sources and unit children) and its component trees is collected - "
+                                    "what Printer::printModel(model, true) avoids when it generates ids")):
+        c.harnesses.append(("listids", Harness("h_" + nm, "U", enforce=nm, replace=[x for x in lstubs if x != nm] + ["listComponentIds__rec"], defines={"HEAP_N": 12, "PW_NO_H": 1},
+                                               backend="kissat|z3", timeout=900, loop_contracts=True, carries=carries)))
     wd = engine.work_dir("C13")
     exe = {}
 
@@ -55,12 +66,12 @@ def main(argv):
         os.makedirs(d, exist_ok=True)
         harness = []
         for cn in entries:
-            harness.append("void h_%s(void)\n{\n    L = nondet_bool(); Hh = nondet_bool(); pend = 0; saveL = 0;\n    __CPROVER_assume(!Hh || L); /* invariant I on entry, after arbitrary model edits */\n"
-                           "    %s();\n    __CPROVER_assert(!Hh || L, \"%s: on return a current hash certifies a complete id list\");\n"
+            harness.append("void h_%s(void)\n{\n    L = nondet_bool(); X = nondet_bool(); Hh = nondet_bool(); pend = 0; saveL = 0;\n    __CPROVER_assume(!Hh || (L && X)); /* invariant I on entry, after arbitrary model edits */\n"
+                           "    %s();\n    __CPROVER_assert(!Hh || (L && X), \"%s: on return a current hash certifies a complete and exact id list\");\n"
                            "#ifdef CANARY\n    __CPROVER_assert(0, \"CANARY reachable\");\n#endif\n}\n" % (cn[2:], cn, cn[2:]))
         for cn in sorted(s.recursive):
-            harness.append("void h_rec_%s(void)\n{\n    L = 1; Hh = nondet_bool(); pend = 0; saveL = nondet_bool();\n"
-                           "    %s();\n    __CPROVER_assert(!pend && L && (!Hh || L), \"%s satisfies the summary used at its recursive call\");\n"
+            harness.append("void h_rec_%s(void)\n{\n    L = 1; X = nondet_bool(); Hh = nondet_bool(); pend = 0; saveL = nondet_bool();\n    __CPROVER_assume(!Hh || X);\n"
+                           "    %s();\n    __CPROVER_assert(!pend && L && (!Hh || X), \"%s satisfies the summary used at its recursive call\");\n"
                            "#ifdef CANARY\n    __CPROVER_assert(0, \"CANARY reachable\");\n#endif\n}\n" % (cn[2:], cn, cn[2:]))
         unit = ('#include "%s"\n#include <stdbool.h>\nbool nondet_bool(void);\nint nondet_int(void);\n#include "%s"\n%s\n%s\n' % (
             os.path.join(VERIF, "models/base.h"), os.path.join(VERIF, "specs/C13/effects.h"), text, "\n".join(harness)))
@@ -84,7 +95,7 @@ def main(argv):
             chk.harnesses.append(("slices", Harness("h_rec_" + cn[2:], "F", defines={}, unwind=6, loop_contracts=True, backend="sat", timeout=300,
                                                     carries="%s (recursive over the component tree) satisfies its own summary: induction on depth" % cn[2:])))
             chk.harnesses[-1][1].no_unwinding_assertions = True
-        chk.functions_under_contract = [{"function": cn[2:], "lowered_as": cn, "file": "/repo/src/annotator.cpp", "lines": [], "loops": 0, "text_sha256": ""} for cn in eff]
+        chk.functions_under_contract += [{"function": cn[2:], "lowered_as": cn, "file": "/repo/src/annotator.cpp", "lines": [], "loops": 0, "text_sha256": ""} for cn in eff]
         chk.extra_cov["effect_slices"] = len(eff)
         chk.extra_cov["entry_points"] = len(entries)
         chk.extra_cov["effects_seen"] = used
@@ -98,11 +109,18 @@ def main(argv):
         if not m:
             raise Undecided("native annotator fuzz did not run: rc=%s %s" % (rc, (out + err)[-300:]))
         chk.fuzz_out = out.strip()
+        rc, out2, err, _ = run([exe["x"], "printids", str(chk.seed), "1500" if chk.tier == "quick" else "30000"], timeout=900)
+        if "PRINTIDS" not in out2:
+            out2 = "PRINTIDS violates=1 what=the real code terminated abnormally rc=%s %s" % (rc, (err or "")[-300:].replace("\n", " "))
+        chk.print_out = out2.strip()
+        chk.native_facts.append(("native random models with unique ids (imports with local children, resets, units, mapping/connection ids): every id written by "
+                                 "printModel(model, true) is unique and the model is not modified", "violates=0" in out2, out2.strip()[-300:]))
         chk.native_facts.append(("native random models / edit-then-assign sequences: new ids unique, old ids unchanged, lookups agree with a traversal",
                                  m.group(1) == "0", out.strip()[-300:]))
 
     c.pre_steps = [build]
     c.trusted_base = [
+        "listids unit: the object tree is read through contract stubs of the getters at arbitrary ghost indices; the id set tracks one arbitrary identifier Z exactly (models/pointwise.h)",
         "effect slices (tools/slicer.py): every condition is a nondeterministic choice, all data is dropped; only the order of effects on each path is kept",
         "update() is a trusted contract: generateHash() is sensitive to every identifier of the model (NOT checked - the hash in fact ignores connection/mapping ids)",
         "every loop of the slices carries the same loop contract (specs/C13/effects.h) and is not unwound; recursion (component trees) is unwound 6 deep over a 16-state abstraction",
@@ -112,10 +130,16 @@ def main(argv):
                      "an arbitrary id-index state allowed by the invariant (the model may have been edited) and must reach makeUniqueId() and every lookup only "
                      "with a complete id list, and re-establish the invariant. Complete for the finite abstraction; the abstraction drops all data, so "
                      "'every item that lacked an id gets one' and 'existing ids unchanged' are NOT decided here (only exercised by the native fuzz).")
-    c.not_covered = ["completeness of assignment and preservation of existing ids (data-dependent)", "Printer::printModel(model, true) automatic ids",
+    c.not_covered = ["completeness of assignment and preservation of existing ids (data-dependent)", "Printer::printModel(model, true): makeUniqueId(IdList&) and the autoIds branches of printer.cpp (only the id collection they rely on is under contract; the rest is exercised by the native print fuzz)",
                      "generateHash sensitivity"]
 
     def replay(chk, h, o, ce):
+        if h.name in ("h_listComponentIds", "h_listIds"):
+            out = getattr(chk, "print_out", "")
+            m = re.search(r"PRINTIDS violates=1 what=(.*)", out, re.S)
+            if m:
+                return True, "real code: " + m.group(1)[:400].replace("\n", " "), "printids", {"printids": out[:1200]}
+            return None, "the native print fuzz found no duplicated id (seed %d)" % chk.seed, None, {}
         out = getattr(chk, "fuzz_out", "")
         m = re.search(r"FUZZ violates=1 what=(.*)", out, re.S)
         if m:
@@ -123,6 +147,9 @@ def main(argv):
         return None, "the native fuzz found no duplicate or changed identifier (seed %d)" % chk.seed, None, {}
 
     c.replayers["*"] = replay
+    # the exactness flag X is cleared by EVERY identifier write, although a write to an item that had no identifier leaves no stale
+    # entry (the slices drop that condition): a failing X obligation counts only when the native fuzz reproduces a wrong lookup
+    c.replay_required = lambda h, o: bool(re.search(r"stale|exact", o.get("desc", "")))
     if getattr(c, "replay_file", None):
         import json
         r = json.load(open(c.replay_file))
